@@ -48,6 +48,8 @@ pub struct Hist {
     pub log: Vec<String>,
     pub bound: f64,
     pub registry: Vec<Snap>,
+    /// extra handles the program keeps alive (flag-changed clones)
+    pub kept_handles: Vec<Array>,
     pub snapshots_on: bool,
     /// maintain the expected-gradient ledger (C10); off for monitors that do not need reference gradients
     pub track_slots: bool,
@@ -77,6 +79,7 @@ impl Hist {
             log: vec![],
             bound: 0.0,
             registry: vec![],
+            kept_handles: vec![],
             snapshots_on,
             track_slots: true,
             failures: vec![],
@@ -340,6 +343,19 @@ impl Hist {
             let c = h.clone();
             self.register(&c, "clone");
             self.log.push(format!("keep clone of n{}", node));
+        }
+    }
+    /// `let d = h.clone().untracked()` / `.tracked()`: a handle of its own with its flags changed by value (a detached
+    /// copy for logging, a constant for another graph). Flags belong to the handle; `h` and its gradient stay as they are.
+    pub fn flagged_clone(&mut self, node: usize, on: bool, keep: bool) {
+        self.step += 1;
+        if let Some(h) = &self.handles[node] {
+            let c = if on { h.clone().tracked() } else { h.clone().untracked() };
+            if keep {
+                self.register(&c, "flagged-clone");
+                self.kept_handles.push(c);
+            }
+            self.log.push(format!("{} n{}.clone().{}()", if keep { "keep" } else { "make and drop" }, node, if on { "tracked" } else { "untracked" }));
         }
     }
     pub fn keep_view(&mut self, node: usize) {
